@@ -65,20 +65,36 @@ def r2(p, rep):
             printers.append((f.qualname.split("::")[1], f))
     if len(printers) < 10:
         raise AnalysisError(f"anchor vanished: expected >= 10 printers (stage1 __str__ + el_op templates), found {len(printers)}")
+    def unlexable(tok):
+        """characters of tok that no segmentation into lexer literals can cover (greedy longest-literal scan)"""
+        bad, i = [], 0
+        while i < len(tok):
+            m = max((l for l in lits if l and tok.startswith(l, i)), key=len, default=None)
+            if m is None:
+                bad.append(tok[i])
+                i += 1
+            else:
+                i += len(m)
+        return bad
+
     for label, f in printers:
         toks = printed_tokens(f.node)
         seen = set()
         for tok, n in toks:
-            if tok in seen:
-                continue
-            seen.add(tok)
-            rep.add(
-                "C12.R2",
-                f"{f.qualname}:literal:{tok!r}",
-                f"{f.module.rel}:{n.lineno}",
-                lexes(tok),
-                f"{label} emits {tok!r}; lexer literals are {sorted(lits)}" + ("" if lexes(tok) else " - the printed text cannot be read back by parse_op"),
-            )
+            bad = unlexable(tok)
+            # one obligation per distinct offending character (stable under re-formatting of the string constants),
+            # or one per fully lexable token
+            for item, ok in ([(ch, False) for ch in bad] or [(tok, True)]):
+                if item in seen:
+                    continue
+                seen.add(item)
+                rep.add(
+                    "C12.R2",
+                    f"{f.qualname}:literal:{item!r}",
+                    f"{f.module.rel}:{n.lineno}",
+                    ok,
+                    f"{label} emits {item!r}; lexer literals are {sorted(lits)}" + ("" if ok else " - the printed text cannot be read back by parse_op"),
+                )
         if not toks:
             rep.ok("C12.R2", f"{f.qualname}:no-punctuation", f.loc, "emits no punctuation", nontrivial=False)
     return literals
